@@ -17,8 +17,8 @@ use crate::spaces::c04_alphabet;
 use std::io::Write;
 
 fn outcome_line(rec: &StepRec, fin: &[Problem]) -> String {
-    let mut ev: Vec<String> = rec.events.iter().map(|e| e.show()).collect();
-    ev.sort();
+    // in program order: the property demands *exactly* the same lifecycle events in both builds
+    let ev: Vec<String> = rec.events.iter().map(|e| e.show()).collect();
     format!(
         "{} <{}> contents {} len={} empty={} full={} events[{}] user-calls{:?} final[{}]",
         if rec.panicked { "panicked" } else { "returned" },
